@@ -2,6 +2,6 @@ ID = "C13"
 TESTS = [
     T("vfsdir", "TestC13WideListings",
       {"checks": 800, "shards": 4, "timeout": 300, "steps": 50},
-      {"checks": 8000, "shards": 8, "timeout": 1500, "steps": 70}),
+      {"checks": 4000, "shards": 8, "timeout": 1500, "steps": 70}),
 ]
 ASSUMPTIONS = ["C13 wide listings: 16 names, one directory filled to 12-16 entries, listing page sizes 1-8 and 'all', at most 4 open listings; otherwise the generator restrictions of directory_model apply"]
